@@ -262,6 +262,25 @@ func (d *Decoder) LoadParityData() error {
 	return nil
 }
 
+// checkShardByteCount checks that all file data fits in a shard,
+// i.e. in the parity data byte count.
+func (d *Decoder) checkShardByteCount() error {
+	k := 0
+	for _, entry := range d.indexVolume.entries {
+		if !entry.header.Status.savedInVolumeSet() {
+			continue
+		}
+		if entry.header.FileBytes > uint64(d.shardByteCount) {
+			return errors.New("file byte count bigger than parity data byte count")
+		}
+		if k < len(d.fileData) && len(d.fileData[k]) > d.shardByteCount {
+			return errors.New("file data bigger than parity data byte count")
+		}
+		k++
+	}
+	return nil
+}
+
 func (d *Decoder) buildShards() [][]byte {
 	shards := make([][]byte, len(d.fileData)+len(d.parityData))
 	for i, data := range d.fileData {
@@ -371,6 +390,11 @@ func (d *Decoder) VerifyAllData() (ok bool, err error) {
 		return false, err
 	}
 
+	err = d.checkShardByteCount()
+	if err != nil {
+		return false, err
+	}
+
 	shards := d.buildShards()
 
 	return rs.Verify(shards)
@@ -395,6 +419,11 @@ func (d *Decoder) Repair(checkParity bool) ([]string, error) {
 	}
 
 	rs, err := d.newReedSolomon()
+	if err != nil {
+		return nil, err
+	}
+
+	err = d.checkShardByteCount()
 	if err != nil {
 		return nil, err
 	}
